@@ -2042,14 +2042,27 @@ def check_C16(tier, seed):
     import random
     out = Outcome("C16")
     maxops = 2 if tier == "quick" else 3
-    cfg = os.path.join(BUILD, "C16_syntax.cfg")
     os.makedirs(BUILD, exist_ok=True)
-    with open(cfg, "w") as f:
-        f.write("CONSTANTS\n  MaxOps = %d\nINIT Init\nNEXT Next\nINVARIANTS RoundTrip ReadmeExample PrintCase\nCHECK_DEADLOCK FALSE\n" % maxops)
-    tlc = run_tlc("Syntax.tla", cfg, workers=12, timeout=3000, tag="C16", heap="10g")
-    if not tlc.ok:
-        raise ToolError("TLC found an error in Syntax.tla:\n" + str(tlc.error))
+
+    def syntax_run(tag, ops, small):
+        cfg = os.path.join(BUILD, "%s_syntax.cfg" % tag)
+        with open(cfg, "w") as f:
+            f.write("CONSTANTS\n  MaxOps = %d\n  SmallAtoms = %s\nINIT Init\nNEXT Next\nINVARIANTS RoundTrip %sPrintCase\nCHECK_DEADLOCK FALSE\n" % (
+                ops, "TRUE" if small else "FALSE", "" if small else "ReadmeExample "))
+        r = run_tlc("Syntax.tla", cfg, workers=12, timeout=3000, tag=tag, heap="10g")
+        if not r.ok:
+            raise ToolError("TLC found an error in Syntax.tla:\n" + str(r.error))
+        return r
+
+    # all seven atoms up to two operators; thorough: additionally three operators over three atoms
+    tlc = syntax_run("C16", 2, False)
     cases = tlc.tagged.get("SYN", [])
+    if tier != "quick":
+        deep = syntax_run("C16_deep", 3, True)
+        seen_ = {tuple(c["toks"]) for c in cases}
+        cases = cases + [c for c in deep.tagged.get("SYN", []) if tuple(c["toks"]) not in seen_]
+        tlc.distinct += deep.distinct
+        tlc.states += deep.states
     # `$` directly followed by `$` is the start of a built-in (`$$name`) for the tokenizer: the
     # grammar has no way to write end-of-input followed by `$...` without parentheses, so those
     # token strings are not printings of the tree (and `$` is only meaningful at the tail anyway)
@@ -2057,8 +2070,9 @@ def check_C16(tier, seed):
         return any(a == "D" and b_ in ("D", "B") for a, b_ in zip(toks, toks[1:]))
     cases = [c for c in cases if not dollar_clash(c["toks"])]
     rnd = random.Random(seed)
-    if tier == "quick" and len(cases) > 12000:
-        cases = rnd.sample(cases, 12000)
+    cap = 12000 if tier == "quick" else 60000
+    if len(cases) > cap:
+        cases = rnd.sample(cases, cap)
     invs = []
     for i, c in enumerate(cases):
         invs.append(("V%d" % i, "L%d -> u8; rule Init { %s = 0u8, }" % (i, toks_txt(c["toks"]))))
@@ -2141,14 +2155,16 @@ def check_C16(tier, seed):
         "states": tlc.distinct, "transitions": tlc.states,
         "traces_validated_against_impl": n_ok + n_scope,
         "printed_trees": len(cases), "scoping_variants": len(scoped),
-        "rule": "Syntax.tla: all regex trees with <= %d operators over 4 atoms, printed with minimal "
+        "rule": "Syntax.tla: all regex trees with <= 2 operators over 7 atoms ('a' 'b' ['a'-'c'] _ \"ab\" $ "
+                "$$ascii_digit; `#` only between classes)%s, printed with minimal "
                 "parentheses, with one redundant pair around each sub-tree in turn, and with all of "
                 "them; TLC checks Parse(Print(t)) = t for the documented five-level grammar and "
                 "prints every (tree, token string); each string is expanded by the real macro "
                 "(lexer_verif!) and the syntax tree its parser built (dump hook) compared with the "
                 "tree; for a sample of trees a sub-tree is named with a top-level or rule-set-local "
                 "`let` and the compiled automaton must be identical; a rule-set-local binding used "
-                "in another rule set must be rejected" % maxops,
+                "in another rule set must be rejected" % (
+                    "" if tier == "quick" else " and with <= 3 operators over the atoms 'a' ['a'-'c'] _ (a sample of %d token strings in all)" % len(cases)),
         "samples": [{"tree": cases[0]["tree"], "text": toks_txt(cases[0]["toks"])}] if cases else [],
         "tlc_cmd": tlc.cmd, "exhaustive": tier != "quick" or len(cases) < 12000,
     }
